@@ -125,6 +125,16 @@ def record_layouts(fname):
             if mm:
                 recs[cur]["fields"].append((mm.group(2), mm.group(1).strip(), off))
     _layout_cache[fname] = recs
+    # clang lays out only the records a translation unit needs; a record reached through pointers alone (e.g. the table
+    # collection from genotypes.c) is taken from the translation unit that defines its operations (same headers)
+    if fname not in ("tables.c", "kastore.c"):
+        for other in ("trees.c", "tables.c"):
+            if other != fname:
+                try:
+                    for k_, v_ in record_layouts(other).items():
+                        recs.setdefault(k_, v_)
+                except FrontEndError:
+                    pass
     return recs
 
 
